@@ -76,6 +76,14 @@ def gen(c):
             if 0 < cut <= len(b13):      # a changed length field shows up as a truncated / extended body (length is the AAD)
                 add("trunc:tls13:len%d:%d" % (n, cut), seq=seq, msg=b13[:len(b13) - cut], touched=1, **base13)
         add("extend:tls13:len%d:1" % n, seq=seq, msg=b13 + b"\0", touched=1, **base13)
+        # integrity values changed in ways that cancel in a byte sum / XOR fold / order-insensitive or shortened comparison: the GCM tag, and the HMAC inside the
+        # CBC record (re-encrypted with the right keys, so that only the MAC comparison stands between the record and acceptance)
+        for nm, tx in CL.cancelling(b13[-16:]):
+            add("tag:tls13:len%d:%s" % (n, nm), seq=seq, msg=b13[:-16] + tx, touched=1, **base13)
+        mac = K.hmac(T, "sm3", mk, bytes(seq) + bytes(HDR_TLS12) + len(payload).to_bytes(2, "big") + bytes(payload))
+        pl = 16 - (len(payload) + 32) % 16
+        for nm, mx in CL.cancelling(mac):
+            add("mac:cbc:len%d:%s" % (n, nm), seq=seq, hdr3=HDR_TLS12, msg=iv16 + K.cbc_enc(T, "sm4", k, iv16, bytes(payload) + mx + bytes([pl - 1]) * pl), touched=1, **base)
         for d in (1, 2, 256, (1 << 64) - 1):
             s2 = ((int.from_bytes(seq, "big") + d) % (1 << 64)).to_bytes(8, "big")
             add("seq:tls13:len%d:+%d" % (n, d), seq=s2, msg=b13, touched=1, **base13)
